@@ -322,6 +322,9 @@ def check(ctx):
     # ---- R8 the line kept is the line of the best move ----------------------------------------------------------------------
     _best_line(ctx, p)
 
+    # ---- R9 mate scores are counted from the node that holds them, so the table stores and returns them untouched ---------------
+    _table_scores(ctx, p)
+
     # ---- R6 witness ------------------------------------------------------------------------------
     n_as, fails = compile_witness('C08.cc')
     for (fn_, line, msg) in fails:
@@ -331,6 +334,57 @@ def check(ctx):
                site='witness/C08.cc', sample=(i < 2))
     ctx.floor('C08.R6.witness', n_as, 10, 'static_asserts')
     ctx.note('not decided: that a printed mate distance is forced or minimal (needs a game-tree solver)')
+
+
+def _table_scores(ctx, p):
+    """R3 establishes the convention: a mate score counts plies from the node it is returned by (lost_in(0) at the mated node,
+    one ply added per level on the way up). Such a score is valid for the position whatever path reached it, so a score goes into
+    the transposition table and comes out of it unchanged: arithmetic with the ply of the storing or the probing node (the
+    adjustment engines with root-relative mate scores need) would shift announced mate distances."""
+    from rules.norm import Norm
+    n_r = n_w = 0
+    for name in ('engine::Search::search', 'engine::Search::quiescence_search'):
+        f = p.fn(name)
+        nm = Norm(f, inline=False)
+        for n in f.all_nodes():
+            r = n.get('ref') or {}
+            if not (r.get('k') == 'Field' and r.get('n') == 'engine::tt::TTEntry::score' and access_kind(f, n) == 'read'):
+                continue
+            n_r += 1
+            cur, par = n, f.parent(n)
+            partners = []
+            while par is not None and par['k'] not in ('CompoundStmt', 'IfStmt', 'DeclStmt', 'ReturnStmt', 'SwitchStmt', 'CaseStmt', 'WhileStmt', 'ForStmt'):
+                k = par['k']
+                if k in ('BinaryOperator', 'CompoundAssignOperator') and par.get('op') in ('+', '-', '*', '/', '+=', '-=', '<<', '>>', '%'):
+                    partners.append(par)
+                elif k in ('CallExpr', 'CXXMemberCallExpr', 'CXXOperatorCallExpr') and any(c is cur for c in kids(par)[1:]):
+                    cn_ = (par.get('callee') or {}).get('n', '')
+                    if not (cn_.startswith('std::max') or cn_.startswith('std::min') or cn_.startswith('std::abs') or
+                            par.get('mac') or cn_.startswith('engine::is_mate') or par.get('op') in ('==', '!=', '<', '>', '<=', '>=', '=')):
+                        partners.append(par)
+                if k == 'VarDecl':
+                    break
+                cur, par = par, f.parent(par)
+            with_ply = [x for x in partners if 'ply' in nm.s(x).lower()]
+            if partners and not with_ply:
+                raise AnalysisBroken('C08: the table score read at %s goes through `%s`, which the rule does not know' % (f.loc(n), nm.s(partners[0])[:120]))
+            ctx.ob('C08.R9.table-score-untouched', '%s:read@%d' % (short(f.name), n.get('l', 0)), not with_ply,
+                   'a score taken from the transposition table is used as stored (node-relative mate distance)%s'
+                   % ('' if not with_ply else ' — combined with the ply: ' + nm.s(with_ply[0])[:120]), site=f.loc(n), sample=(n_r <= 2))
+        for n in f.all_nodes():
+            if n['k'] in ('CXXConstructExpr', 'CXXTemporaryObjectExpr') and 'TTEntry' in (n.get('t') or '') and len(kids(n)) >= 4:
+                n_w += 1
+                a0 = kids(n)[0]
+                txt = nm.s(a0)
+                calls = [x for x in walk(a0) if x['k'] in ('CallExpr',) and (x.get('callee') or {}).get('n', '').startswith('engine::')]
+                ar = [x for x in walk(a0) if x['k'] == 'BinaryOperator' and x.get('op') in ('+', '-')]
+                bad = 'ply' in txt.lower()
+                if not bad and (calls or ar):
+                    raise AnalysisBroken('C08: the score stored at %s is `%s`, which the rule does not know' % (f.loc(n), txt[:120]))
+                ctx.ob('C08.R9.table-score-untouched', '%s:store@%d' % (short(f.name), n.get('l', 0)), not bad,
+                       'the score stored in the transposition table is the node\'s own value (node-relative mate distance)%s'
+                       % ('' if not bad else ' — adjusted by the ply: ' + txt[:120]), site=f.loc(n), sample=(n_w <= 2))
+    ctx.floor('C08.R9.table-score-untouched', n_r + n_w, 6, 'table score reads and stores in the search')
 
 
 def _best_line(ctx, p):
